@@ -69,6 +69,10 @@ where
 
 const SAMPLE_OPTS: [u8; 6] = [30, 28, 0, 2, 31, 14];
 
+pub fn compare_pub<K: Kind>(g: &K::G, m: &Model, opts: &[u8], fnv: &mut Fnv, st: &mut Stats) -> Option<Violation> {
+    compare::<K>(g, m, opts, fnv, st)
+}
+
 fn compare<K: Kind>(g: &K::G, m: &Model, opts: &[u8], fnv: &mut Fnv, st: &mut Stats) -> Option<Violation> {
     let want_len = m.processed_len();
     let got_len = g.processed_len();
